@@ -922,7 +922,8 @@ def c07(ctx):
     iter_part(ctx, {"count", "panic"})
     lib_traces(ctx, "bytes", "count", "all", 1500 if ctx.quick else 12000, "bytes")
     iter_traces(ctx, 100 if ctx.quick else 1000, ops_filter={"count"}, forces=("avx2", "fallback"))
-    return C.finish(ctx, "model_checking", RULE_BYTES)
+    extra = tlaps_supplement(ctx, "GenericCountUnbounded", ("InitInv", "NextInv", "InvCorrect", "Safety"))
+    return C.finish(ctx, "model_checking", RULE_BYTES, extra_cov=extra)
 
 
 RECIPES = {"C01": c01, "C02": c02, "C03": c03, "C04": c04, "C05": c05, "C06": c06, "C09": c09, "C07": c07, "C08": c08, "C10": c10, "C11": c11, "C12": c12, "C13": c13, "C14": c14, "C15": c15, "C16": c16, "C17": c17, "C18": c18, "C19": c19}
